@@ -54,7 +54,7 @@ CfgOf(c) == [name |-> c.name, nlevels |-> c.nlevels,
                              lsc |-> c.levels[i].lsc, lscn |-> c.levels[i].lscn, elite |-> c.levels[i].elite,
                              variant |-> c.levels[i].variant]],
              limit |-> c.limit, hib |-> c.hib, gsc |-> c.gsc, gscn |-> c.gscn, gscw |-> c.gscw,
-             max |-> c.max, sprout |-> c.sprout, haslocal |-> c.haslocal, cutoff |-> c.cutoff,
+             max |-> c.max, sprout |-> c.sprout, generator |-> c.generator, haslocal |-> c.haslocal, cutoff |-> c.cutoff,
              idlecheck |-> c.idlecheck]
 
 -----------------------------------------------------------------------------
@@ -360,9 +360,9 @@ MemCalls(m, s, e) ==
 MemNewStep(m) == [m EXCEPT !.d = [d \in DOMAIN m.d |-> [m.d[d] EXCEPT !.iters = <<>>]]]
 
 \* sprout event: seeds, provenance, distances
-SproutClauses(s, e) ==
+SproutClauses(s, m, e) ==
     LET seeds == UNION {{<<e.ret[i][1], e.ret[i][2][j]>> : j \in DOMAIN e.ret[i][2]} : i \in DOMAIN e.ret}
-        genOf(p)  == UNION {IF e.gen[i][1] = p THEN {e.gen[i][2][j] : j \in DOMAIN e.gen[i][2]} ELSE {} : i \in DOMAIN e.gen}
+        genOf(p)  == UNION {IF e.gen[i][1] = p THEN {e.gen[i][2][j][1] : j \in DOMAIN e.gen[i][2]} ELSE {} : i \in DOMAIN e.gen}
         usedOf(p) == UNION {IF e.used[i][1] = p THEN {e.used[i][2][j] : j \in DOMAIN e.used[i][2]} ELSE {} : i \in DOMAIN e.used}
         refusedNow == e.snap.refused > 0
         viaLocal == s.cfg.sprout = "nbc_local"
@@ -372,6 +372,14 @@ SproutClauses(s, e) ==
    \cup (IF \E i \in DOMAIN e.atoms.far : e.atoms.far[i][4] # 1 THEN {"C09_FarFromConsidered"} ELSE {})
    \cup (IF \E i \in DOMAIN e.used : ~(usedOf(e.used[i][1]) \subseteq genOf(e.used[i][1])) THEN {"C10_FiltersOnlyRemove"} ELSE {})
    \cup (IF \E x \in seeds : x[2][1] \notin usedOf(x[1]) THEN {"C10_FiltersOnlyRemove"} ELSE {})
+   \cup (IF \E i \in DOMAIN e.gen : \E j \in DOMAIN e.gen[i][2] :
+              ~(e.gen[i][2][j][3] = 1 \/ (viaLocal /\ e.gen[i][2][j][4] = 1))
+         THEN {"C10_CandidatesFromCurrentPopulation"} ELSE {})
+   \cup (IF s.cfg.generator = "best" /\ \E i \in DOMAIN e.gen :
+              \/ Len(e.gen[i][2]) # 1
+              \/ (e.gen[i][1] \in DOMAIN m.d /\ m.d[e.gen[i][1]].last # <<>>
+                  /\ e.gen[i][2][1][2] # MinRank(m.d[e.gen[i][1]].last))
+         THEN {"C10_BestPerDemeProposesBest"} ELSE {})
    \cup (IF \E i \in DOMAIN e.gen : ~(/\ e.gen[i][1] \in Ids(s)
                                       /\ (s.D[e.gen[i][1]].active \/ viaLocal)
                                       /\ ~IsLeafLevel(s, Lvl(s, e.gen[i][1])))
@@ -408,7 +416,7 @@ Step ==
            m3   == IF full /\ sn.best # <<>> THEN [m2 EXCEPT !.tbest = sn.best[2]] ELSE m2
            m4   == IF e.e = "gsc" /\ e.by = "run" /\ ~e.v THEN MemNewStep(m3) ELSE m3
            pc   == IF e.e = "gsc" /\ e.by = "step" THEN PostClauses(s2) ELSE {}
-           sc   == IF e.e = "sprout" THEN SproutClauses(s2, e) ELSE {}
+           sc   == IF e.e = "sprout" THEN SproutClauses(s2, m2, e) ELSE {}
            q    == Post(s2, e)
            idle == IF e.e = "gsc" /\ e.by = "step" /\ s2.cfg.idlecheck = 1 /\ sn.refused = 0 /\ IdleMetaepoch(q.st)
                    THEN {IF AllActiveWereAsleep(q.st) THEN "C18_IdleAllAsleep"
